@@ -120,6 +120,19 @@ def check_case(case) -> Outcome:
                 break
     if got['attackers'] != orig['attackers']:
         out.add('attackers-differ', f'{got["attackers"]} != {orig["attackers"]}')
+    # ---- loading again after the first loaded graph was changed must give the original again ------------------
+    if not out.discrepancies:
+        try:
+            for n in loaded.nodes:
+                n.extras['changed-after-load'] = 1
+                n.tags.append('changed-after-load')
+            again = snapshot(AttackGraph.load_from_file(p, model=model if with_model else None))
+            for i, exp in orig['nodes'].items():
+                if again['nodes'][i]['tags'] != exp['tags'] or again['nodes'][i]['extras'] != exp['extras']:
+                    out.add('second-load-sees-changes-made-to-the-first-loaded-graph', f'node {i}')
+                    break
+        except Exception as e:
+            out.add('second-load-raises', f'{type(e).__name__}: {e}')
     # ---- second round: replace an asset of the model by a new one with the same name, regenerate, reload ----
     if with_model and case.get('second_round') and objs and not out.discrepancies:
         try:
